@@ -30,6 +30,7 @@ type Scope struct {
 	heapUse map[string]Sort // records heaps read (define analysis)
 	bound  []string
 	qvars  map[string]bool
+	limited map[string]bool // spec functions whose calls denote the limited (non-unfolding) synonym
 	paramsFirst bool // postconditions: parameter names denote entry values, other locals their final content
 }
 
@@ -925,7 +926,12 @@ func (sc *Scope) callDefine(d *Define, args []Expr) (Term, types.Type) {
 	for _, h := range info.heaps {
 		ts = append(ts, sc.heap(h.name, h.sort))
 	}
-	return App(sc.vc.env.SortOf(info.ret), info.smtName, ts...), info.ret
+	name := info.smtName
+	if sc.limited[d.Name] {
+		// recursive occurrence inside a definitional axiom: the limited synonym does not unfold further
+		name = info.smtName + "_lim"
+	}
+	return App(sc.vc.env.SortOf(info.ret), name, ts...), info.ret
 }
 
 type heapRef struct {
@@ -973,9 +979,13 @@ func (vc *VC) defineInfo(d *Define) *defInfo {
 		argSorts = append(argSorts, h.sort)
 	}
 	vc.env.DeclFun(di.smtName, argSorts, vc.env.SortOf(rt))
+	scc := vc.p.recursiveWith(d)
+	if len(scc) > 0 {
+		vc.env.DeclFun(di.smtName+"_lim", argSorts, vc.env.SortOf(rt))
+	}
 	if d.Body != nil {
 		// definitional axiom
-		sc := &Scope{vc: vc, pkg: pkg, vars: map[string]scopeVar{}, heapAbs: map[string]Term{}}
+		sc := &Scope{vc: vc, pkg: pkg, vars: map[string]scopeVar{}, heapAbs: map[string]Term{}, limited: scc}
 		var binders []string
 		var args []Term
 		var guards []Term
@@ -1000,6 +1010,10 @@ func (vc *VC) defineInfo(d *Define) *defInfo {
 			vc.env.Axiom(Eq(app, body).S)
 		} else {
 			vc.env.Axiom(fmt.Sprintf("(forall (%s) (! %s :pattern (%s)))", strings.Join(binders, " "), Eq(app, body).S, app.S))
+			if len(scc) > 0 {
+				lim := App(vc.env.SortOf(rt), di.smtName+"_lim", args...)
+				vc.env.Axiom(fmt.Sprintf("(forall (%s) (! %s :pattern (%s)))", strings.Join(binders, " "), Eq(lim, app).S, app.S))
+			}
 		}
 		if d.Trusted {
 			vc.trustedUsed["define "+d.Name+" (trusted spec file)"] = true
@@ -1157,4 +1171,38 @@ func (vc *VC) typeGuard(v Term, t types.Type) Term {
 			Implies(Eq(SlArr(v), IntLit(0)), Eq(SlCap(v), IntLit(0))))
 	}
 	return True
+}
+
+// recursiveWith returns the set of spec functions in the same recursion cycle
+// as d (empty if d is not recursive).
+func (p *Prog) recursiveWith(d *Define) map[string]bool {
+	reach := func(from string) map[string]bool {
+		seen := map[string]bool{}
+		var visit func(n string)
+		visit = func(n string) {
+			dd, ok := p.cs.Defines[n]
+			if !ok || dd.Body == nil {
+				return
+			}
+			walkCalls(dd.Body, func(c string) {
+				if _, isDef := p.cs.Defines[c]; isDef && !seen[c] {
+					seen[c] = true
+					visit(c)
+				}
+			})
+		}
+		visit(from)
+		return seen
+	}
+	mine := reach(d.Name)
+	if !mine[d.Name] {
+		return nil
+	}
+	scc := map[string]bool{}
+	for n := range mine {
+		if reach(n)[d.Name] {
+			scc[n] = true
+		}
+	}
+	return scc
 }
